@@ -334,7 +334,7 @@ class Explorer(object):
             c = self.port.module_consts(self.modname).get(e.id, NOT_HANDLED) if hasattr(self.port, 'module_consts') else NOT_HANDLED
             if c is not NOT_HANDLED:
                 return c
-            if e.id in ('len', 'iter', 'str', 'int', 'bool', 'list', 'tuple', 'isinstance', 'range', 'enumerate', 'min', 'max', 'any', 'all', 'type', 'set', 'Set', 'sorted', 'sum', 'Map', 'dict'):
+            if e.id in ('len', 'iter', 'str', 'int', 'bool', 'list', 'tuple', 'isinstance', 'range', 'enumerate', 'min', 'max', 'any', 'all', 'type', 'set', 'Set', 'sorted', 'sum', 'Map', 'dict', 'Array'):
                 return ('builtin', e.id)
             # a module-level table of constants (`WILDCARDS = new Map([['_', '.'], ...])`, a dict / list / tuple literal), bound once
             mod_ = getattr(self.port, 'modules', {}).get(self.modname)
@@ -413,6 +413,10 @@ class Explorer(object):
             if all(isinstance(x, str) for x in parts):
                 return ''.join(parts)
             return Abs('Text', parts=tuple(parts))
+        if isinstance(e, ast.NamedExpr) and isinstance(e.target, ast.Name):
+            v = self.expr(e.value, env)
+            env[e.target.id] = v
+            return v
         if isinstance(e, ast.Yield) and getattr(self, '_yields', None):
             self._yields[-1].append(self.expr(e.value, env) if e.value is not None else None)
             return None
@@ -499,6 +503,10 @@ class Explorer(object):
         if isinstance(op, ast.Add) and (getattr(a, 'is_abs_str', False) or getattr(b, 'is_abs_str', False)) and isinstance(a, (str, list, Abs)) and isinstance(b, (str, list, Abs)):
             # an abstract string (list of abstract characters) concatenated with text: a text made of both
             return Abs('Text', parts=_parts(a) + _parts(b))
+        if isinstance(op, ast.Mult) and isinstance(a, list) and isinstance(b, int) and not isinstance(b, bool) and 0 <= b < 100:
+            return a * b
+        if isinstance(op, ast.Mult) and isinstance(b, list) and isinstance(a, int) and not isinstance(a, bool) and 0 <= a < 100:
+            return b * a
         if isinstance(op, ast.Add) and isinstance(a, list) and isinstance(b, list):
             return a + b
         if isinstance(op, ast.Add) and isinstance(a, tuple) and isinstance(b, tuple):
@@ -599,6 +607,8 @@ class Explorer(object):
             return ('class', args[0].props['cls'])
         if name == 'isinstance' and len(args) == 2 and isinstance(args[1], tuple) and args[1] and args[1][0] == 'class':
             return isinstance(args[0], Abs) and args[0].props.get('cls') == args[1][1]
+        if name == 'Array' and len(args) == 1 and isinstance(args[0], int) and not isinstance(args[0], bool) and 0 <= args[0] < 100:
+            return [None] * args[0]
         if name in ('set', 'Set') and not args:
             return set()
         if name in ('Map', 'dict') and len(args) <= 1:
@@ -638,6 +648,10 @@ class Explorer(object):
                 return None
             if m == 'pop' and not args and recv:
                 return recv.pop()
+            if m == 'fill' and len(args) == 1:
+                for i_ in range(len(recv)):
+                    recv[i_] = args[0]
+                return recv
             if m == 'reverse' and not args:
                 recv.reverse()
                 return recv if getattr(self.port, 'name', 'py') == 'js' else None
